@@ -29,26 +29,25 @@ Definition voice_before (tp : Z) (e : event) : bool := is_type Voice e && (e_tim
 Definition last_of {A} (p : A -> bool) (l : list A) : option A :=
   fold_left (fun acc x => if p x then Some x else acc) l None.
 
-(* the value controller `no` has when the point is reached / the program in force / the channel of the last of them *)
-Definition latest_cc (tp no : Z) (evs : list event) : option Z :=
-  option_map e_v2 (last_of (fun e => cc_before tp e && (e_v1 e =? no)) evs).
-Definition latest_voice (tp : Z) (evs : list event) : option Z :=
-  option_map e_v1 (last_of (voice_before tp) evs).
-Definition restore_ch (tp : Z) (evs : list event) : Z :=
-  match last_of (fun e => cc_before tp e || voice_before tp e) evs with Some e => e_ch e | None => 0 end.
+(* the LAST controller change for number `no` before the point / the last program change before the point
+   ("last" in the order of the list, which is the order the commands were executed in) *)
+Definition latest_cc_ev (tp no : Z) (evs : list event) : option event :=
+  last_of (fun e => cc_before tp e && (e_v1 e =? no)) evs.
+Definition latest_voice_ev (tp : Z) (evs : list event) : option event := last_of (voice_before tp) evs.
 
 (* the four segments of the result *)
 Definition pf_early (tp : Z) (evs : list event) : list event := map at_zero (filter (early_meta tp) evs).
 Definition pf_kept (tp : Z) (evs : list event) : list event := map (retime tp) (filter (kept tp) evs).
+(* the value as the writer sends it (0..127), on the channel it was set on *)
 Definition restored_cc_of (tp : Z) (evs : list event) (no : nat) : list event :=
-  match latest_cc tp (Z.of_nat no) evs with
-  | Some v => if v <? 0 then [] else [ev_cc 0 (restore_ch tp evs) (Z.of_nat no) v]
+  match latest_cc_ev tp (Z.of_nat no) evs with
+  | Some e => [ev_cc 0 (e_ch e) (Z.of_nat no) (value_range 0 (e_v2 e) 127)]
   | None => []
   end.
 Definition pf_restored_cc (tp : Z) (evs : list event) : list event := flat_map (restored_cc_of tp evs) (seq 0 128).
 Definition pf_restored_voice (tp : Z) (evs : list event) : list event :=
-  match latest_voice tp evs with
-  | Some v => if v >=? 0 then [ev_voice 0 (restore_ch tp evs) v] else []
+  match latest_voice_ev tp evs with
+  | Some e => if e_v1 e >=? 0 then [ev_voice 0 (e_ch e) (e_v1 e)] else []
   | None => []
   end.
 Definition pf_restored (tp : Z) (evs : list event) : list event := pf_restored_cc tp evs ++ pf_restored_voice tp evs.
@@ -97,7 +96,7 @@ Qed.
 (* ------------------------------------------------------------------------------------------------ *)
 (* 2. the fold of play_from                                                                           *)
 
-Definition pf_init : pf_acc := mkPf [] [] (repeat (-1) 128) (-1) 0.
+Definition pf_init : pf_acc := mkPf [] [] (repeat (-1) 128) (repeat 0 128) (-1) 0.
 Definition pf_run (tp : Z) (evs : list event) : pf_acc := fold_left (pf_step tp) evs pf_init.
 
 Lemma pf_run_snoc tp evs e : pf_run tp (evs ++ [e]) = pf_step tp (pf_run tp evs) e.
@@ -116,12 +115,12 @@ Proof.
     rewrite IH. reflexivity.
 Qed.
 
-Lemma pf_cc_length tp evs : length (pf_cc (pf_run tp evs)) = 128%nat.
+Lemma pf_cc_length tp evs : length (pf_cc (pf_run tp evs)) = 128%nat /\ length (pf_cc_ch (pf_run tp evs)) = 128%nat.
 Proof.
-  induction evs as [|e l IH] using rev_ind; [reflexivity|].
+  induction evs as [|e l IH] using rev_ind; [split; reflexivity|].
   rewrite pf_run_snoc. unfold pf_step.
   destruct (e_type e); try exact IH; destruct (e_time e - tp <? 0); try exact IH.
-  cbn [pf_cc]. destruct (_ && _); [rewrite set_cc_length|]; exact IH.
+  destruct (_ && _); [|exact IH]. cbn [pf_cc pf_cc_ch]. rewrite !set_cc_length. exact IH.
 Qed.
 
 Lemma pf_head_spec tp evs : pf_head (pf_run tp evs) = pf_early tp evs.
@@ -129,7 +128,7 @@ Proof.
   unfold pf_early. induction evs as [|e l IH] using rev_ind; [reflexivity|].
   rewrite pf_run_snoc, filter_snoc, map_app, <- IH. unfold pf_step, early_meta.
   replace (e_time e - tp <? 0) with (e_time e <? tp) by lia.
-  destruct (e_type e); destruct (e_time e <? tp); cbn [pf_head map]; rewrite ?app_nil_r; reflexivity.
+  destruct ((0 <=? e_v1 e) && (e_v1 e <? 128)); destruct (e_type e); destruct (e_time e <? tp); cbn [pf_head map]; rewrite ?app_nil_r; reflexivity.
 Qed.
 
 Lemma pf_rest_spec tp evs : pf_rest (pf_run tp evs) = pf_kept tp evs.
@@ -137,66 +136,62 @@ Proof.
   unfold pf_kept. induction evs as [|e l IH] using rev_ind; [reflexivity|].
   rewrite pf_run_snoc, filter_snoc, map_app, <- IH. unfold pf_step, kept, passes_type, retime.
   replace (e_time e - tp <? 0) with (negb (tp <=? e_time e)) by lia.
-  destruct (e_type e); destruct (tp <=? e_time e); cbn [negb andb pf_rest map]; rewrite ?app_nil_r; reflexivity.
+  destruct ((0 <=? e_v1 e) && (e_v1 e <? 128)); destruct (e_type e); destruct (tp <=? e_time e); cbn [negb andb pf_rest map]; rewrite ?app_nil_r; reflexivity.
 Qed.
 
 Lemma pf_voice_spec tp evs :
-  pf_voice (pf_run tp evs) = match latest_voice tp evs with Some v => v | None => -1 end.
+  pf_voice (pf_run tp evs) = match latest_voice_ev tp evs with Some e => e_v1 e | None => -1 end /\
+  pf_voice_ch (pf_run tp evs) = match latest_voice_ev tp evs with Some e => e_ch e | None => 0 end.
 Proof.
-  unfold latest_voice. induction evs as [|e l IH] using rev_ind; [reflexivity|].
+  unfold latest_voice_ev. induction evs as [|e l IH] using rev_ind; [split; reflexivity|].
   rewrite pf_run_snoc, last_of_snoc. unfold pf_step, voice_before, is_type.
   replace (e_time e - tp <? 0) with (e_time e <? tp) by lia.
-  destruct (e_type e); destruct (e_time e <? tp); cbn [etype_eqb andb pf_voice option_map]; try exact IH; reflexivity.
-Qed.
-
-Lemma pf_ch_spec tp evs : pf_ch (pf_run tp evs) = restore_ch tp evs.
-Proof.
-  unfold restore_ch. induction evs as [|e l IH] using rev_ind; [reflexivity|].
-  rewrite pf_run_snoc, last_of_snoc. unfold pf_step, cc_before, voice_before, is_type.
-  replace (e_time e - tp <? 0) with (e_time e <? tp) by lia.
-  destruct (e_type e); destruct (e_time e <? tp); cbn [etype_eqb andb orb pf_ch]; try exact IH; reflexivity.
+  destruct ((0 <=? e_v1 e) && (e_v1 e <? 128)); destruct (e_type e); destruct (e_time e <? tp); cbn [etype_eqb andb pf_voice pf_voice_ch]; try exact IH;
+    split; reflexivity.
 Qed.
 
 Lemma pf_cc_spec tp evs no : (no < 128)%nat ->
-  nth no (pf_cc (pf_run tp evs)) (-1) = match latest_cc tp (Z.of_nat no) evs with Some v => v | None => -1 end.
+  nth no (pf_cc (pf_run tp evs)) (-1)
+  = match latest_cc_ev tp (Z.of_nat no) evs with Some e => value_range 0 (e_v2 e) 127 | None => -1 end /\
+  nth no (pf_cc_ch (pf_run tp evs)) 0
+  = match latest_cc_ev tp (Z.of_nat no) evs with Some e => e_ch e | None => 0 end.
 Proof.
-  intros Hno. unfold latest_cc. induction evs as [|e l IH] using rev_ind.
-  - cbn [pf_run fold_left pf_init pf_cc last_of option_map].
-    apply nth_repeat.
+  intros Hno. unfold latest_cc_ev. induction evs as [|e l IH] using rev_ind.
+  - cbn [pf_run fold_left pf_init pf_cc pf_cc_ch last_of]. split; apply nth_repeat.
   - rewrite pf_run_snoc, last_of_snoc. unfold pf_step, cc_before, is_type.
     replace (e_time e - tp <? 0) with (e_time e <? tp) by lia.
-    destruct (e_type e); destruct (e_time e <? tp); cbn [etype_eqb andb pf_cc]; try exact IH.
+    destruct (e_type e); destruct (e_time e <? tp); cbn [etype_eqb andb pf_cc pf_cc_ch]; try exact IH.
     destruct ((0 <=? e_v1 e) && (e_v1 e <? 128)) eqn:R.
-    + rewrite nth_set_cc, pf_cc_length.
+    + cbn [pf_cc pf_cc_ch]. rewrite !nth_set_cc. destruct (pf_cc_length tp l) as [L1 L2]. rewrite L1, L2.
       destruct (e_v1 e =? Z.of_nat no) eqn:E.
       * replace (Nat.eqb no (Z.to_nat (e_v1 e))) with true by (symmetry; apply Nat.eqb_eq; lia).
         replace (Nat.ltb (Z.to_nat (e_v1 e)) 128) with true by (symmetry; apply Nat.ltb_lt; lia).
-        reflexivity.
+        split; reflexivity.
       * replace (Nat.eqb no (Z.to_nat (e_v1 e))) with false by (symmetry; apply Nat.eqb_neq; lia).
         exact IH.
     + replace (e_v1 e =? Z.of_nat no) with false by lia. exact IH.
 Qed.
 
-(* restore_ccs over the table: one event per entry that is not negative, in controller order *)
-Lemma restore_ccs_seq ch (g : nat -> Z) : forall n k,
-  restore_ccs (Z.of_nat k) ch (map g (seq k n))
-  = flat_map (fun i => if g i <? 0 then [] else [ev_cc 0 ch (Z.of_nat i) (g i)]) (seq k n).
+(* restore_ccs over the two tables: one event per entry that is not negative, in controller order *)
+Lemma restore_ccs_seq (c g : nat -> Z) : forall n k,
+  restore_ccs (Z.of_nat k) (map c (seq k n)) (map g (seq k n))
+  = flat_map (fun i => if g i <? 0 then [] else [ev_cc 0 (c i) (Z.of_nat i) (g i)]) (seq k n).
 Proof.
   induction n as [|n IH]; intros k; [reflexivity|].
-  cbn [seq map restore_ccs flat_map]. f_equal.
+  cbn [seq map restore_ccs flat_map hd tl]. f_equal.
   replace (Z.of_nat k + 1) with (Z.of_nat (S k)) by lia. apply IH.
 Qed.
 
-Lemma pf_cc_table tp evs :
-  pf_cc (pf_run tp evs)
-  = map (fun no => match latest_cc tp (Z.of_nat no) evs with Some v => v | None => -1 end) (seq 0 128).
+Lemma table_is_map (F : nat -> Z) (d : Z) (l : list Z) :
+  length l = 128%nat -> (forall n, (n < 128)%nat -> nth n l d = F n) -> l = map F (seq 0 128).
 Proof.
-  set (F := fun no => match latest_cc tp (Z.of_nat no) evs with Some v => v | None => -1 end).
-  apply (nth_ext _ _ (-1) (F 0%nat)).
-  - rewrite pf_cc_length, map_length, seq_length. reflexivity.
-  - intros n Hn. rewrite pf_cc_length in Hn. rewrite pf_cc_spec by exact Hn.
-    rewrite (map_nth F), seq_nth by exact Hn. reflexivity.
+  intros Hl H. apply (nth_ext _ _ d (F 0%nat)).
+  - rewrite Hl, map_length, seq_length. reflexivity.
+  - intros n Hn. rewrite Hl in Hn. rewrite (H n Hn), (map_nth F), seq_nth by exact Hn. reflexivity.
 Qed.
+
+Lemma value_range_not_neg v : (value_range 0 v 127 <? 0) = false.
+Proof. unfold value_range. destruct (Z.ltb_spec v 0); [reflexivity|]. destruct (Z.gtb_spec v 127); lia. Qed.
 
 (* THE DECOMPOSITION: early Meta/SysEx at tick 0, then the restored controllers (ascending number) and program,
    then everything kept, re-timed, in the original order *)
@@ -204,12 +199,15 @@ Theorem play_from_decomposition tp evs :
   play_from tp evs = pf_early tp evs ++ pf_restored tp evs ++ pf_kept tp evs.
 Proof.
   unfold play_from. fold pf_init. fold (pf_run tp evs).
-  rewrite pf_head_spec, pf_rest_spec, pf_ch_spec, pf_voice_spec, pf_cc_table.
+  rewrite pf_head_spec, pf_rest_spec. destruct (pf_voice_spec tp evs) as [V1 V2]. rewrite V1, V2.
+  destruct (pf_cc_length tp evs) as [L1 L2].
+  rewrite (table_is_map _ (-1) _ L1 (fun n Hn => proj1 (pf_cc_spec tp evs n Hn))).
+  rewrite (table_is_map _ 0 _ L2 (fun n Hn => proj2 (pf_cc_spec tp evs n Hn))).
   f_equal. unfold pf_restored. rewrite <- app_assoc. f_equal; [|f_equal].
   - change 0 with (Z.of_nat 0) at 1. rewrite restore_ccs_seq. unfold pf_restored_cc.
     apply flat_map_ext. intros no. unfold restored_cc_of.
-    destruct (latest_cc tp (Z.of_nat no) evs) as [v|]; reflexivity.
-  - unfold pf_restored_voice. destruct (latest_voice tp evs) as [v|]; reflexivity.
+    destruct (latest_cc_ev tp (Z.of_nat no) evs) as [e|]; [rewrite value_range_not_neg|]; reflexivity.
+  - unfold pf_restored_voice. destruct (latest_voice_ev tp evs) as [e|]; reflexivity.
 Qed.
 
 (* ------------------------------------------------------------------------------------------------ *)
@@ -252,8 +250,8 @@ Lemma restored_no_note tp evs : filter (is_type NoteOn) (pf_restored tp evs) = [
 Proof.
   unfold pf_restored. rewrite filter_app. unfold pf_restored_cc.
   rewrite filter_flat_map_nil.
-  - unfold pf_restored_voice. destruct (latest_voice tp evs) as [v|]; [destruct (v >=? 0)|]; reflexivity.
-  - intros no. unfold restored_cc_of. destruct (latest_cc _ _ _) as [v|]; [destruct (v <? 0)|]; reflexivity.
+  - unfold pf_restored_voice. destruct (latest_voice_ev tp evs) as [e|]; [destruct (e_v1 e >=? 0)|]; reflexivity.
+  - intros no. unfold restored_cc_of. destruct (latest_cc_ev _ _ _) as [e|]; reflexivity.
 Qed.
 
 (* (a) the note-ons of the result are exactly the note-ons at or after the point, re-timed, in order *)
@@ -281,14 +279,13 @@ Proof.
   unfold pf_early. f_equal. apply filter_ext. intros e. unfold early_meta, is_type. destruct (e_type e); reflexivity.
 Qed.
 
-(* (c) for every controller number there is at most one restoring event; there is exactly one, carrying the LATEST
-   value written before the point, as soon as that value is not negative *)
+(* (c) for every controller number: exactly one restoring event if the controller was written before the point
+   (none otherwise), carrying the LATEST value as the writer sends it, on the channel it was written on *)
 Lemma restored_cc_of_v1 tp evs no k :
   filter (fun e => e_v1 e =? Z.of_nat k) (restored_cc_of tp evs no)
   = if Nat.eqb no k then restored_cc_of tp evs no else [].
 Proof.
-  unfold restored_cc_of. destruct (latest_cc _ _ _) as [v|]; [|destruct (Nat.eqb no k); reflexivity].
-  destruct (v <? 0); [destruct (Nat.eqb no k); reflexivity|].
+  unfold restored_cc_of. destruct (latest_cc_ev _ _ _) as [e|]; [|destruct (Nat.eqb no k); reflexivity].
   cbn [filter ev_cc e_v1]. destruct (Nat.eqb_spec no k) as [->|N].
   - rewrite Z.eqb_refl. reflexivity.
   - replace (Z.of_nat no =? Z.of_nat k) with false by lia. reflexivity.
@@ -310,8 +307,8 @@ Qed.
 
 Theorem restored_cc_unique tp evs no : 0 <= no < 128 ->
   filter (fun e => e_v1 e =? no) (pf_restored_cc tp evs)
-  = match latest_cc tp no evs with
-    | Some v => if v <? 0 then [] else [ev_cc 0 (restore_ch tp evs) no v]
+  = match latest_cc_ev tp no evs with
+    | Some e => [ev_cc 0 (e_ch e) no (value_range 0 (e_v2 e) 127)]
     | None => []
     end.
 Proof.
@@ -320,34 +317,33 @@ Proof.
   replace (Nat.ltb (Z.to_nat no) (0 + 128)) with true by (symmetry; apply Nat.ltb_lt; lia). reflexivity.
 Qed.
 
-(* every restored controller event is a controller change at tick 0 with a number in 0..127 *)
+(* every restored controller event: a controller change at tick 0, number 0..127, value 0..127 *)
 Theorem restored_cc_shape tp evs e : In e (pf_restored_cc tp evs) ->
-  e_type e = ControllChange /\ e_time e = 0 /\ 0 <= e_v1 e < 128 /\ e_ch e = restore_ch tp evs /\
-  latest_cc tp (e_v1 e) evs = Some (e_v2 e) /\ 0 <= e_v2 e.
+  e_type e = ControllChange /\ e_time e = 0 /\ 0 <= e_v1 e < 128 /\ 0 <= e_v2 e <= 127 /\
+  exists e0, latest_cc_ev tp (e_v1 e) evs = Some e0 /\ e_ch e = e_ch e0 /\ e_v2 e = value_range 0 (e_v2 e0) 127.
 Proof.
   unfold pf_restored_cc. rewrite in_flat_map. intros [no [Hno He]]. apply in_seq in Hno.
-  unfold restored_cc_of in He. destruct (latest_cc tp (Z.of_nat no) evs) as [v|] eqn:L; [|destruct He].
-  destruct (v <? 0) eqn:V; [destruct He|]. destruct He as [<-|[]]. cbn [ev_cc e_type e_time e_v1 e_v2 e_ch].
-  repeat split; try lia. exact L.
+  unfold restored_cc_of in He. destruct (latest_cc_ev tp (Z.of_nat no) evs) as [e0|] eqn:L; [|destruct He].
+  destruct He as [<-|[]]. cbn [ev_cc e_type e_time e_v1 e_v2 e_ch].
+  assert (B : 0 <= value_range 0 (e_v2 e0) 127 <= 127).
+  { unfold value_range. destruct (Z.ltb_spec (e_v2 e0) 0); [lia|]. destruct (Z.gtb_spec (e_v2 e0) 127); lia. }
+  repeat split; try lia. exists e0. repeat split. exact L.
 Qed.
 
-(* what "latest" means: the last controller change for that number before the point *)
-Theorem latest_cc_some tp no evs v :
-  latest_cc tp no evs = Some v <->
-  exists l1 e l2, evs = l1 ++ e :: l2 /\ e_type e = ControllChange /\ e_time e < tp /\ e_v1 e = no /\ e_v2 e = v /\
+(* what "latest" means: the last controller change for that number before the point, in list order *)
+Theorem latest_cc_some tp no evs e :
+  latest_cc_ev tp no evs = Some e <->
+  exists l1 l2, evs = l1 ++ e :: l2 /\ e_type e = ControllChange /\ e_time e < tp /\ e_v1 e = no /\
     Forall (fun x => ~ (e_type x = ControllChange /\ e_time x < tp /\ e_v1 x = no)) l2.
 Proof.
-  unfold latest_cc. split.
-  - destruct (last_of _ evs) as [e|] eqn:L; [|discriminate]. cbn [option_map]. intros E; injection E as <-.
-    apply last_of_some in L. destruct L as [l1 [l2 [-> [Pe Hl2]]]]. exists l1, e, l2.
+  unfold latest_cc_ev. rewrite last_of_some. split.
+  - intros [l1 [l2 [-> [Pe Hl2]]]]. exists l1, l2.
     unfold cc_before, is_type in Pe. apply andb_prop in Pe. destruct Pe as [Pe1 Pe3]. apply andb_prop in Pe1. destruct Pe1 as [Pe1 Pe2].
     repeat split; try lia; [destruct (e_type e); try discriminate; reflexivity|].
     apply Forall_forall. intros x Hx [X1 [X2 X3]]. rewrite forallb_forall in Hl2. specialize (Hl2 x Hx).
     unfold cc_before, is_type in Hl2. rewrite X1 in Hl2. cbn [etype_eqb andb] in Hl2.
     replace (e_time x <? tp) with true in Hl2 by lia. replace (e_v1 x =? no) with true in Hl2 by lia. discriminate.
-  - intros [l1 [e [l2 [-> [T [Tm [N [V Hl2]]]]]]]].
-    replace (last_of (fun e0 => cc_before tp e0 && (e_v1 e0 =? no)) (l1 ++ e :: l2)) with (Some e); [cbn [option_map]; congruence|].
-    symmetry. apply last_of_some. exists l1, l2. split; [reflexivity|]. split.
+  - intros [l1 [l2 [-> [T [Tm [N Hl2]]]]]]. exists l1, l2. split; [reflexivity|]. split.
     + unfold cc_before, is_type. rewrite T. cbn [etype_eqb andb]. lia.
     + apply forallb_forall. intros x Hx. rewrite Forall_forall in Hl2. specialize (Hl2 x Hx).
       unfold cc_before, is_type. destruct (e_type x) eqn:Tx; cbn [etype_eqb andb negb]; try reflexivity.
@@ -356,51 +352,48 @@ Proof.
 Qed.
 
 Theorem latest_cc_none tp no evs :
-  latest_cc tp no evs = None <-> Forall (fun x => ~ (e_type x = ControllChange /\ e_time x < tp /\ e_v1 x = no)) evs.
+  latest_cc_ev tp no evs = None <-> Forall (fun x => ~ (e_type x = ControllChange /\ e_time x < tp /\ e_v1 x = no)) evs.
 Proof.
-  unfold latest_cc. destruct (last_of _ evs) as [e|] eqn:L; cbn [option_map].
-  - split; [discriminate|]. intros H. apply last_of_some in L. destruct L as [l1 [l2 [-> [Pe _]]]].
-    rewrite Forall_forall in H. exfalso. apply (H e); [apply in_or_app; right; left; reflexivity|].
-    unfold cc_before, is_type in Pe. apply andb_prop in Pe. destruct Pe as [Pe1 Pe3]. apply andb_prop in Pe1. destruct Pe1 as [Pe1 Pe2].
-    repeat split; try lia. destruct (e_type e); try discriminate; reflexivity.
-  - split; [|reflexivity]. intros _. apply last_of_none in L. apply Forall_forall. intros x Hx [X1 [X2 X3]].
+  unfold latest_cc_ev. rewrite last_of_none. split.
+  - intros L. apply Forall_forall. intros x Hx [X1 [X2 X3]].
     rewrite forallb_forall in L. specialize (L x Hx). unfold cc_before, is_type in L. rewrite X1 in L. cbn [etype_eqb andb] in L.
     replace (e_time x <? tp) with true in L by lia. replace (e_v1 x =? no) with true in L by lia. discriminate.
+  - intros H. apply forallb_forall. intros x Hx. rewrite Forall_forall in H. specialize (H x Hx).
+    unfold cc_before, is_type. destruct (e_type x) eqn:Tx; cbn [etype_eqb andb negb]; try reflexivity.
+    destruct (e_time x <? tp) eqn:A; cbn [andb negb]; [|reflexivity].
+    destruct (e_v1 x =? no) eqn:B; cbn [negb]; [|reflexivity]. exfalso. apply H. repeat split; lia.
 Qed.
 
-Theorem latest_voice_some tp evs v :
-  latest_voice tp evs = Some v <->
-  exists l1 e l2, evs = l1 ++ e :: l2 /\ e_type e = Voice /\ e_time e < tp /\ e_v1 e = v /\
+Theorem latest_voice_some tp evs e :
+  latest_voice_ev tp evs = Some e <->
+  exists l1 l2, evs = l1 ++ e :: l2 /\ e_type e = Voice /\ e_time e < tp /\
     Forall (fun x => ~ (e_type x = Voice /\ e_time x < tp)) l2.
 Proof.
-  unfold latest_voice. split.
-  - destruct (last_of _ evs) as [e|] eqn:L; [|discriminate]. cbn [option_map]. intros E; injection E as <-.
-    apply last_of_some in L. destruct L as [l1 [l2 [-> [Pe Hl2]]]]. exists l1, e, l2.
+  unfold latest_voice_ev. rewrite last_of_some. split.
+  - intros [l1 [l2 [-> [Pe Hl2]]]]. exists l1, l2.
     unfold voice_before, is_type in Pe. apply andb_prop in Pe. destruct Pe as [Pe1 Pe2].
     repeat split; try lia; [destruct (e_type e); try discriminate; reflexivity|].
     apply Forall_forall. intros x Hx [X1 X2]. rewrite forallb_forall in Hl2. specialize (Hl2 x Hx).
     unfold voice_before, is_type in Hl2. rewrite X1 in Hl2. cbn [etype_eqb andb] in Hl2.
     replace (e_time x <? tp) with true in Hl2 by lia. discriminate.
-  - intros [l1 [e [l2 [-> [T [Tm [V Hl2]]]]]]].
-    replace (last_of (voice_before tp) (l1 ++ e :: l2)) with (Some e); [cbn [option_map]; congruence|].
-    symmetry. apply last_of_some. exists l1, l2. split; [reflexivity|]. split.
+  - intros [l1 [l2 [-> [T [Tm Hl2]]]]]. exists l1, l2. split; [reflexivity|]. split.
     + unfold voice_before, is_type. rewrite T. cbn [etype_eqb andb]. lia.
     + apply forallb_forall. intros x Hx. rewrite Forall_forall in Hl2. specialize (Hl2 x Hx).
       unfold voice_before, is_type. destruct (e_type x) eqn:Tx; cbn [etype_eqb andb negb]; try reflexivity.
       destruct (e_time x <? tp) eqn:A; cbn [negb]; [|reflexivity]. exfalso. apply Hl2. split; [reflexivity|lia].
 Qed.
 
-(* the program: one restoring event with the latest program before the point (when it is not negative) *)
-Theorem restored_voice_spec tp evs :
-  pf_restored_voice tp evs
-  = match latest_voice tp evs with Some v => if v >=? 0 then [ev_voice 0 (restore_ch tp evs) v] else [] | None => [] end.
-Proof. reflexivity. Qed.
-
-(* the channel the restored events are sent on: that of the last controller / program event before the point *)
-Theorem restore_ch_spec tp evs :
-  (forall e, last_of (fun e => cc_before tp e || voice_before tp e) evs = Some e -> restore_ch tp evs = e_ch e) /\
-  (last_of (fun e => cc_before tp e || voice_before tp e) evs = None -> restore_ch tp evs = 0).
-Proof. unfold restore_ch. split; [intros e ->|intros ->]; reflexivity. Qed.
+Theorem latest_voice_none tp evs :
+  latest_voice_ev tp evs = None <-> Forall (fun x => ~ (e_type x = Voice /\ e_time x < tp)) evs.
+Proof.
+  unfold latest_voice_ev. rewrite last_of_none. split.
+  - intros L. apply Forall_forall. intros x Hx [X1 X2].
+    rewrite forallb_forall in L. specialize (L x Hx). unfold voice_before, is_type in L. rewrite X1 in L. cbn [etype_eqb andb] in L.
+    replace (e_time x <? tp) with true in L by lia. discriminate.
+  - intros H. apply forallb_forall. intros x Hx. rewrite Forall_forall in H. specialize (H x Hx).
+    unfold voice_before, is_type. destruct (e_type x) eqn:Tx; cbn [etype_eqb andb negb]; try reflexivity.
+    destruct (e_time x <? tp) eqn:A; cbn [negb]; [|reflexivity]. exfalso. apply H. split; [reflexivity|lia].
+Qed.
 
 (* (e) nothing else passes: NoteOff, PitchBend, PitchBendRange and DirectSMF events are dropped wherever they stand *)
 Theorem play_from_kinds tp evs : Forall (fun e => passes_type e = true) (play_from tp evs).
@@ -411,7 +404,7 @@ Proof.
     destruct (e_type x); try discriminate; reflexivity.
   - unfold pf_restored. apply Forall_app. split.
     + apply Forall_forall. intros e He. apply restored_cc_shape in He. destruct He as [T _]. unfold passes_type. rewrite T. reflexivity.
-    + unfold pf_restored_voice. destruct (latest_voice tp evs) as [v|]; [destruct (v >=? 0)|]; repeat constructor.
+    + unfold pf_restored_voice. destruct (latest_voice_ev tp evs) as [e0|]; [destruct (e_v1 e0 >=? 0)|]; repeat constructor.
   - unfold pf_kept. apply Forall_forall. intros e He. apply in_map_iff in He. destruct He as [x [<- Hx]].
     apply filter_In in Hx. destruct Hx as [_ Hx]. unfold kept in Hx. apply andb_prop in Hx. exact (proj1 Hx).
 Qed.
@@ -438,7 +431,7 @@ Lemma pf_restored_times tp evs : Forall (fun e => e_time e = 0) (pf_restored tp 
 Proof.
   unfold pf_restored. apply Forall_app. split.
   - apply Forall_forall. intros e He. apply restored_cc_shape in He. apply He.
-  - unfold pf_restored_voice. destruct (latest_voice tp evs) as [v|]; [destruct (v >=? 0)|]; repeat constructor.
+  - unfold pf_restored_voice. destruct (latest_voice_ev tp evs) as [e0|]; [destruct (e_v1 e0 >=? 0)|]; repeat constructor.
 Qed.
 
 (* ------------------------------------------------------------------------------------------------ *)
@@ -553,12 +546,86 @@ Proof.
 Qed.
 
 (* ------------------------------------------------------------------------------------------------ *)
-(* 5. what compile() hands to the writer                                                              *)
+(* 5. what compile() hands to the writer: play_from of the TIME-SORTED events, so "latest" is latest in time  *)
 
 Theorem tracks_for_writer_play_from s : 0 <= Song.s_play_from s ->
   tracks_for_writer s
-  = map (fun t => play_from (Song.s_play_from s) (Song.tr_events (Tie.check_tie_notes (Song.s_timebase s) t))) (Song.s_tracks s).
+  = map (fun t => play_from (Song.s_play_from s) (events_sort (Song.tr_events (Tie.check_tie_notes (Song.s_timebase s) t))))
+        (Song.s_tracks s).
 Proof.
   intros H. unfold tracks_for_writer. apply map_ext. intros t.
   replace (Song.s_play_from s <? 0) with false by lia. reflexivity.
+Qed.
+
+Theorem tracks_for_writer_off s : Song.s_play_from s < 0 ->
+  tracks_for_writer s = map (fun t => Song.tr_events (Tie.check_tie_notes (Song.s_timebase s) t)) (Song.s_tracks s).
+Proof.
+  intros H. unfold tracks_for_writer. apply map_ext. intros t.
+  replace (Song.s_play_from s <? 0) with true by lia. reflexivity.
+Qed.
+
+Lemma sorted_before_mid l1 e l2 : Sorted time_le (l1 ++ e :: l2) -> Forall (fun x => e_time x <= e_time e) l1.
+Proof.
+  intros Hs. apply Sorted_StronglySorted in Hs; [|intros a b c; unfold time_le; lia].
+  induction l1 as [|x l1 IH]; [constructor|]. cbn [app] in Hs. inversion Hs as [|? ? Hs' Hall]; subst.
+  constructor; [|apply IH; exact Hs'].
+  rewrite Forall_forall in Hall. apply (Hall e). apply in_or_app. right. left. reflexivity.
+Qed.
+
+Lemma at_time_mid t l1 e l2 : e_time e = t -> at_time t (l1 ++ e :: l2) = at_time t l1 ++ e :: at_time t l2.
+Proof. intros H. unfold at_time. rewrite filter_app. cbn [filter]. rewrite H, Z.eqb_refl. reflexivity. Qed.
+
+(* over the sorted list the last such event of the list is the latest in time; among those of that tick, the one
+   written last (stability of the sort) *)
+Theorem latest_cc_in_time tp no evs e : latest_cc_ev tp no (events_sort evs) = Some e ->
+  In e evs /\ e_type e = ControllChange /\ e_time e < tp /\ e_v1 e = no /\
+  Forall (fun x => e_type x = ControllChange -> e_v1 x = no -> e_time x < tp -> e_time x <= e_time e) evs /\
+  exists a b, at_time (e_time e) evs = a ++ e :: b /\ Forall (fun x => ~ (e_type x = ControllChange /\ e_v1 x = no)) b.
+Proof.
+  intros L. apply latest_cc_some in L. destruct L as [l1 [l2 [E [T [Tm [N Hl2]]]]]].
+  pose proof (events_sort_sorted evs) as Hs. rewrite E in Hs.
+  pose proof (sorted_before_mid l1 e l2 Hs) as H1.
+  assert (Hin : forall x, In x evs -> In x (l1 ++ e :: l2)).
+  { intros x Hx. rewrite <- E. apply (Permutation_in _ (Permutation_sym (events_sort_perm evs))). exact Hx. }
+  split; [apply (Permutation_in _ (events_sort_perm evs)); rewrite E; apply in_or_app; right; left; reflexivity|].
+  repeat split; try assumption.
+  - apply Forall_forall. intros x Hx X1 X2 X3. apply Hin in Hx. apply in_app_or in Hx. destruct Hx as [Hx|[<-|Hx]].
+    + rewrite Forall_forall in H1. apply H1. exact Hx.
+    + lia.
+    + rewrite Forall_forall in Hl2. exfalso. apply (Hl2 x Hx). repeat split; assumption.
+  - exists (at_time (e_time e) l1), (at_time (e_time e) l2). split.
+    + rewrite <- (events_sort_stable evs), E. apply at_time_mid. reflexivity.
+    + apply Forall_forall. intros x Hx [X1 X2]. unfold at_time in Hx. apply filter_In in Hx. destruct Hx as [Hx Ht].
+      rewrite Forall_forall in Hl2. apply (Hl2 x Hx). repeat split; try assumption. lia.
+Qed.
+
+Theorem latest_voice_in_time tp evs e : latest_voice_ev tp (events_sort evs) = Some e ->
+  In e evs /\ e_type e = Voice /\ e_time e < tp /\
+  Forall (fun x => e_type x = Voice -> e_time x < tp -> e_time x <= e_time e) evs /\
+  exists a b, at_time (e_time e) evs = a ++ e :: b /\ Forall (fun x => e_type x <> Voice) b.
+Proof.
+  intros L. apply latest_voice_some in L. destruct L as [l1 [l2 [E [T [Tm Hl2]]]]].
+  pose proof (events_sort_sorted evs) as Hs. rewrite E in Hs.
+  pose proof (sorted_before_mid l1 e l2 Hs) as H1.
+  assert (Hin : forall x, In x evs -> In x (l1 ++ e :: l2)).
+  { intros x Hx. rewrite <- E. apply (Permutation_in _ (Permutation_sym (events_sort_perm evs))). exact Hx. }
+  split; [apply (Permutation_in _ (events_sort_perm evs)); rewrite E; apply in_or_app; right; left; reflexivity|].
+  repeat split; try assumption.
+  - apply Forall_forall. intros x Hx X1 X3. apply Hin in Hx. apply in_app_or in Hx. destruct Hx as [Hx|[<-|Hx]].
+    + rewrite Forall_forall in H1. apply H1. exact Hx.
+    + lia.
+    + rewrite Forall_forall in Hl2. exfalso. apply (Hl2 x Hx). split; assumption.
+  - exists (at_time (e_time e) l1), (at_time (e_time e) l2). split.
+    + rewrite <- (events_sort_stable evs), E. apply at_time_mid. reflexivity.
+    + apply Forall_forall. intros x Hx X1. unfold at_time in Hx. apply filter_In in Hx. destruct Hx as [Hx Ht].
+      rewrite Forall_forall in Hl2. apply (Hl2 x Hx). split; [assumption|lia].
+Qed.
+
+(* nothing such before the point in the written list <-> nothing restored *)
+Theorem latest_cc_sorted_none tp no evs :
+  latest_cc_ev tp no (events_sort evs) = None <-> Forall (fun x => ~ (e_type x = ControllChange /\ e_time x < tp /\ e_v1 x = no)) evs.
+Proof.
+  rewrite latest_cc_none. split; intros H; apply Forall_forall; intros x Hx; rewrite Forall_forall in H; apply H.
+  - apply (Permutation_in _ (Permutation_sym (events_sort_perm evs))). exact Hx.
+  - apply (Permutation_in _ (events_sort_perm evs)). exact Hx.
 Qed.
